@@ -288,7 +288,7 @@ def check_panic_sites(rep, fl, rule="R20.2"):
                 n = facts.const_value("store::NUM_OF_SHARDS")
                 if rng and rng[0][3][0] == ("const", 0, "usize") and rng[0][3][1] == ("const", n, "usize") and ("; %d]" % n in t.get("destty", "") or "NUM_OF_SHARDS]" in t.get("destty", "") or True):
                     dty = t.get("destty", "")
-                    cls = "Vec of NUM_OF_SHARDS elements converted to [_; NUM_OF_SHARDS]" if ("256" in dty or "NUM_OF_SHARDS" in dty or "Box<[" in dty) else None
+                    cls = "Vec of NUM_OF_SHARDS elements converted to [_; NUM_OF_SHARDS]" if (("; %d]" % n) in dty or "NUM_OF_SHARDS" in dty or "Box<[" in dty) else None
         elif kind == "index":
             a = [norm(x) for x in b.call_args(t)]
             desc = "%s [%s]" % (show(a[0]), show(a[1]))
@@ -386,7 +386,7 @@ def check_finalize(rep, fl, rule="R20.1"):
 
 def check_C20(rep, fl):
     check_finalize(rep, fl)
-    check_builder_plumbing(rep, fl)
+    check_builder_plumbing(rep, fl, skip_sites=("default ignore_internal_cost",))
     check_panic_sites(rep, fl)
     props_sketch.check_sketch_sizing(rep, fl, "R20.3")
     props_sketch.check_sketch_cells(rep, fl, rule="R20.3", fold=False)
@@ -407,7 +407,17 @@ SIMPLE_SETTERS = {  # setter -> field it must write (frozen table: names are the
 REBUILD_SETTERS = {"set_key_builder": "key_to_hash", "set_coster": "coster", "set_update_validator": "update_validator", "set_callback": "callback", "set_hasher": "hasher"}
 
 
-def check_builder_plumbing(rep, fl, rule="R20.5"):
+def check_builder_plumbing(rep, fl, rule="R20.5", skip_sites=()):
+    """skip_sites: instance sites that are not a necessary condition of the property being checked."""
+    if skip_sites:
+        from framework import Report
+        tmp = Report(rep.prop, rep.tier)
+        try:
+            check_builder_plumbing(tmp, fl, rule)
+        finally:
+            rep.instances.extend(i for i in tmp.instances if i.site not in skip_sites or i.verdict == "anchor-missing")
+            rep.notes.extend(tmp.notes)
+        return
     facts = fl.facts
     adt = facts.adts.get(CORE)
     fields = [f["name"] for f in adt["variants"][0]["fields"]] if adt else []
@@ -480,6 +490,28 @@ def check_builder_plumbing(rep, fl, rule="R20.5"):
         a = [norm(x) for x in fin.call_args(pn[0][1])]
         ok = a[1] == norm(F(inner, "ignore_internal_cost")) and a[2] == norm(F(inner, "cleanup_duration"))
     rep.check(ok, rule, fl, fin, "flags -> processor", "ignore_internal_cost and cleanup_duration reach the processor", "finalize does not hand ignore_internal_cost / cleanup_duration to the processor")
+    # premise of the audited `num_to_keep - 1` in track_admission: the bound handed to the processor is a literal >= 1
+    okn = len(pn) == 1
+    if okn:
+        n2k = norm(fin.call_args(pn[0][1])[0])
+        okn = n2k[0] == "const" and isinstance(n2k[1], int) and n2k[1] >= 1
+    rep.check(okn, rule, fl, fin, "num_to_keep literal", "the processor's num_to_keep is a literal >= 1 (premise of the audited `num_to_keep - 1`)",
+              "finalize no longer hands a literal >= 1 to the processor as num_to_keep: `num_to_keep - 1` in track_admission can underflow")
+    # defaults: a builder on which the flag was never set charges the internal overhead
+    nctor = 0
+    okd = True
+    badd = ""
+    for b in facts.bodies:
+        if not user_code(b) or not strip_generics(b.raw["root"]).startswith(CORE + "::new"):
+            continue
+        for bi_, si_, st_, e_ in agg_nodes(b, CORE):
+            nctor += 1
+            v = agg_fields(e_).get("ignore_internal_cost")
+            if v != ("const", False, "bool") and v != ("const", 0, "bool"):
+                okd = False
+                badd = "%s sets ignore_internal_cost = %s" % (b.spath, show(v) if v is not None else "?")
+    rep.check(okd and nctor >= 1, rule, fl, CORE, "default ignore_internal_cost", "a new builder starts with ignore_internal_cost = false: the internal overhead is charged unless the flag is set",
+              "the builder's default for ignore_internal_cost is not false (%s): a cache built without touching the flag does not charge the internal overhead" % badd)
     at, entry = dataflow(fin)
     mo = calls_to(fin, "metrics::Metrics::new_op")
     ok = len(mo) == 1
